@@ -81,9 +81,49 @@ def trieCase (capS body : String) : String :=
       let (outs, t) := trieSeq (tnew cap) ops []
       s!"{";".intercalate outs}|vlen={t.value.length}"
 
+/- `swseq <max>|add i;exc i;…` → results (`_`, `T`/`F`) then `|c=<counts of ids 0..3>`
+   `sw <seed> <G> <perG>` → `count=<G*perG> exceeded=T` (limit G*perG-1: every request counted) -/
+def parseLOp (s : String) : Option LOp :=
+  match words s with
+  | ["add", i] => i.toNat?.map LOp.add
+  | ["exc", i] => i.toNat?.map LOp.exc
+  | _ => none
+
+def limSeq (max : Nat) (l : Limiter) : List LOp → List String → List String × Limiter
+  | [], acc => (acc.reverse, l)
+  | op :: ops, acc =>
+    let (r, l1) := lstep max l op
+    let rs := match op with | .add _ => "_" | .exc _ => if r == 1 then "T" else "F"
+    limSeq max l1 ops (rs :: acc)
+
+def limCase (maxS body : String) : String :=
+  match maxS.toNat? with
+  | none => "bad-op"
+  | some max =>
+    let opsS := if body.isEmpty then [] else body.splitOn ";"
+    match opsS.mapM parseLOp with
+    | none => "bad-op"
+    | some ops =>
+      let (outs, l) := limSeq max [] ops []
+      let cs := [0, 1, 2, 3].map fun i => toString (lcount l i)
+      s!"{";".intercalate outs}|c={",".intercalate cs}"
+
 def step (line : String) : String :=
   match words line with
   | "race" :: _ => "ok"
+  | ["sw", _, g, per] =>
+    match g.toNat?, per.toNat? with
+    | some g, some per =>
+      -- G*perG AddRequest of one id, limit G*perG-1: the sequential model of that many adds
+      let n := g * per
+      let l := (lrun (n - 1) [] (List.replicate n (LOp.add 0))).2
+      let e := (lstep (n - 1) l (.exc 0)).1
+      s!"count={lcount l 0} exceeded={if e == 1 then "T" else "F"}"
+    | _, _ => "bad-op"
+  | "swseq" :: _ =>
+    match (line.drop 6).toString.splitOn "|" with
+    | [m, body] => limCase m body
+    | _ => "bad-op"
   | ["defcap", n] =>
     match n.toNat? with
     | some n => if n > defaultNodeCacheMaxElements then "F" else "T"
